@@ -925,3 +925,38 @@ Definition judge_C19 (c : c19case) : bool * bool * bool :=
    && forallb (fun o => match o with LPanic => false | _ => true end) obs
    && nav_all (map (fun t : program * list diag => match snd t with [] => Some (nav_info_of (fst t)) | _ => None end) (lc_texts c)) [] (lc_history c),
    negb (Nat.eqb (List.length (lc_history c)) 0)).
+
+(* ======================= C20: the command line ======================= *)
+Inductive cli_obs :=
+| CliOk (ps : list posting) (txm : list (string * string)) (am : metadata)     (* exit 0, decoded JSON *)
+| CliErr (exit : Z) (stderr_starts_with_library_message : bool)
+| CliOther (exit : Z) (what : string).
+
+Record c20case := mk_c20case {
+  cl_check : ccase;                         (* the library's analysis of the script *)
+  cl_check_exit : Z;                        (* exit status of `numscript check FILE` *)
+  cl_check_printed : list (Z * Z);          (* the positions printed by it *)
+  cl_run : icase;                           (* the library's execution (bundled static store) *)
+  cl_channels : list (string * cli_obs) }.  (* `numscript run` through --raw, --stdin, file flags *)
+
+Definition zpair_eqb (a b : Z * Z) : bool := (fst a =? fst b) && (snd a =? snd b).
+
+Definition prop_C20 (c : c20case) : bool :=
+  (match cc_obs (cl_check c) with
+   | CObsOk ds _ nerr =>
+       (cl_check_exit c =? (if Nat.eqb nerr 0 then 0 else 1))
+       && multiset_eqb zpair_eqb (map (fun d : diag * sev_obs => (pline (rstart (d_range (fst d))), pchar (rstart (d_range (fst d))))) ds) (cl_check_printed c)
+   | CObsPanic _ => true
+   end)
+  && forallb (fun ch : string * cli_obs =>
+       match ic_obs (cl_run c), snd ch with
+       | ObsOk ps txm am _, CliOk ps' txm' am' =>
+           list_eqb posting_eqb ps ps'
+           && amap_eqb String.eqb (map (fun kv : string * value => (fst kv, value_string (snd kv))) txm) txm'
+           && metadata_eqb am am'
+       | ObsErr _ _ _, CliErr code starts => (code =? 1) && starts
+       | _, _ => false
+       end) (cl_channels c).
+
+Definition judge_C20 (c : c20case) : bool * bool * bool :=
+  (agree_check (cl_check c) && agree_full (cl_run c), prop_C20 c, true).
